@@ -248,3 +248,136 @@ theorem getNum_eq_numSpan (b : LineBuffer) (hb : Bytes b.buf) (hc : b.column ≤
       | some p => obtain ⟨v, n⟩ := p; simp [numOut]; omega
 
 end Ctrmml.Lexer
+
+namespace Ctrmml.Lexer
+open Ctrmml.MmlMeaning (Num natDigits digitChar renderNat)
+
+/-! ### rendered numerals -/
+
+theorem renderNat_eq (base n : Nat) : renderNat base n = (natDigits base (n + 1) n).map digitChar := rfl
+
+theorem noHexPrefix_digits (ds rest : List Nat) (hne : ds ≠ []) (hds : ∀ d ∈ ds, d < 16)
+    (hx : ∀ c, rest.head? = some c → c ≠ 120 ∧ c ≠ 88) : NoHexPrefix (ds.map digitChar ++ rest) := by
+  intro x h t heq hxx
+  cases ds with
+  | nil => exact hne rfl
+  | cons d ds' =>
+    cases ds' with
+    | nil =>
+      simp at heq
+      have := hx x (by rw [heq.2]; rfl)
+      rcases hxx with e | e
+      · exact this.1 e
+      · exact this.2 e
+    | cons d2 ds'' =>
+      simp at heq
+      have hr := digitChar_range d2 (hds d2 (by simp))
+      rcases hxx with e | e <;> omega
+
+/-- what may follow a numeral of the base: not one of its digits, and after a hexadecimal
+numeral not `x`/`X` either (`0x…` would be taken as a prefix) -/
+def NumEnd (base : Nat) (rest : List Nat) : Prop :=
+  NotDigitHead base rest ∧ (base = 16 → ∀ c, rest.head? = some c → c ≠ 120 ∧ c ≠ 88)
+
+theorem digits_head (ds rest : List Nat) (hne : ds ≠ []) :
+    ∃ d tl, d ∈ ds ∧ ds.map digitChar ++ rest = digitChar d :: tl := by
+  cases ds with
+  | nil => exact absurd rfl hne
+  | cons d tl => exact ⟨d, tl.map digitChar ++ rest, by simp, rfl⟩
+
+theorem strtol_digits_pos (base : Nat) (hb2 : 2 ≤ base) (hb : base = 10 ∨ base = 16) (ds rest : List Nat) (hne : ds ≠ [])
+    (hds : ∀ d ∈ ds, d < base) (hend : NumEnd base rest) :
+    strtol (ds.map digitChar ++ rest) base = some (clampPos (digitsValue base ds), ds.length) := by
+  have hb16 : base ≤ 16 := by omega
+  obtain ⟨d, tl, hd, heq⟩ := digits_head ds rest hne
+  have hr := digitChar_range d (by have := hds d hd; omega)
+  have htd := takeDigits_chars base hb16 ds rest hds hend.1
+  have hpx : base = 16 → NoHexPrefix (digitChar d :: tl) := by
+    intro h16; rw [← heq]
+    exact noHexPrefix_digits ds rest hne (fun x hx => by have := hds x hx; omega) (hend.2 h16)
+  rw [heq, strtol_pos base (digitChar d) tl (not_space_of_range _ (by omega)) (by omega) (by omega) hpx, ← heq, htd]
+  have : ds.isEmpty = false := by cases ds <;> simp_all
+  simp [this]
+
+theorem strtol_digits_neg (base : Nat) (hb2 : 2 ≤ base) (hb : base = 10 ∨ base = 16) (ds rest : List Nat) (hne : ds ≠ [])
+    (hds : ∀ d ∈ ds, d < base) (hend : NumEnd base rest) :
+    strtol (45 :: (ds.map digitChar ++ rest)) base = some (clampNeg (digitsValue base ds), 1 + ds.length) := by
+  have hb16 : base ≤ 16 := by omega
+  have htd := takeDigits_chars base hb16 ds rest hds hend.1
+  have hpx : base = 16 → NoHexPrefix (ds.map digitChar ++ rest) := fun h16 =>
+    noHexPrefix_digits ds rest hne (fun x hx => by have := hds x hx; omega) (hend.2 h16)
+  rw [strtol_neg base _ hpx, htd]
+  have : ds.isEmpty = false := by cases ds <;> simp_all
+  simp [this]
+
+theorem wrapS32_id (v : Int) (h1 : -2147483648 ≤ v) (h2 : v ≤ 2147483647) : wrapS32 v = v := by
+  unfold wrapS32; omega
+
+/-- `get_num` on a rendered number: its value, all of its bytes consumed, nothing else -/
+theorem numSpan_render (n : Num) (rest : List Nat) (h1 : -2147483648 ≤ n.v) (h2 : n.v ≤ 2147483647)
+    (hend : NumEnd (if n.hex then 16 else 10) rest) :
+    numSpan (n.bytes ++ rest) = (some n.v, n.bytes.length) := by
+  obtain ⟨base, hbase⟩ : ∃ base, base = (if n.hex then 16 else 10) := ⟨_, rfl⟩
+  have hb : base = 10 ∨ base = 16 := by rw [hbase]; split <;> simp
+  have hb2 : 2 ≤ base := by omega
+  have hsp := natDigits_spec base hb2 (n.v.natAbs + 1) n.v.natAbs (by omega)
+  obtain ⟨ds, hds⟩ : ∃ ds, ds = natDigits base (n.v.natAbs + 1) n.v.natAbs := ⟨_, rfl⟩
+  rw [← hds] at hsp
+  have hrn : renderNat base n.v.natAbs = ds.map digitChar := by rw [hds]; rfl
+  rw [← hbase] at hend
+  have hpos := strtol_digits_pos base hb2 hb ds rest hsp.2.2 hsp.2.1 hend
+  have hneg := strtol_digits_neg base hb2 hb ds rest hsp.2.2 hsp.2.1 hend
+  rw [hsp.1] at hpos hneg
+  obtain ⟨d, tl, hd, heq⟩ := digits_head ds rest hsp.2.2
+  have hr := digitChar_range d (by have := hsp.2.1 d hd; rcases hb with h | h <;> omega)
+  have hcp : 0 ≤ n.v → wrapS32 (clampPos n.v.natAbs) = (n.v.natAbs : Int) := by
+    intro h0
+    unfold clampPos longMax
+    have : ¬ ((n.v.natAbs : Int) > 9223372036854775807) := by omega
+    simp only [this, if_false]; exact wrapS32_id _ (by omega) (by omega)
+  have hcn : wrapS32 (clampNeg n.v.natAbs) = -(n.v.natAbs : Int) := by
+    unfold clampNeg longMin
+    have : ¬ (-(n.v.natAbs : Int) < -9223372036854775808) := by omega
+    simp only [this, if_false]; exact wrapS32_id _ (by omega) (by omega)
+  unfold Num.bytes
+  rw [← hbase, hrn]
+  by_cases hhex : n.hex = true
+  · have hbv : base = 16 := by simp [hbase, hhex]
+    rw [hbv] at hpos hneg
+    by_cases hn : n.v < 0
+    · simp only [hhex, hn, if_true, List.cons_append, List.nil_append, List.append_assoc]
+      unfold numSpan
+      have hk : LineBuffer.countBlanks (36 :: 45 :: (ds.map digitChar ++ rest)) = 0 := by
+        simp [LineBuffer.countBlanks, not_blank_of_range 36 (by omega)]
+      simp only [hk, List.drop_zero, true_or, if_true, List.isEmpty_cons, Bool.false_eq_true, if_false, hneg, numOut, hcn]
+      simp; omega
+    · simp only [hhex, hn, if_true, if_false, List.cons_append, List.nil_append, List.append_nil]
+      unfold numSpan
+      have hk : LineBuffer.countBlanks (36 :: (ds.map digitChar ++ rest)) = 0 := by
+        simp [LineBuffer.countBlanks, not_blank_of_range 36 (by omega)]
+      have hne : (ds.map digitChar ++ rest).isEmpty = false := by rw [heq]; rfl
+      simp only [hk, List.drop_zero, true_or, if_true, hne, Bool.false_eq_true, if_false, hpos, numOut, hcp (by omega)]
+      simp; omega
+  · have hhex' : n.hex = false := by simpa using hhex
+    have hbv : base = 10 := by simp [hbase, hhex']
+    rw [hbv] at hpos hneg
+    by_cases hn : n.v < 0
+    · simp only [hhex', hn, if_true, Bool.false_eq_true, if_false, List.cons_append, List.nil_append]
+      unfold numSpan
+      have hk : LineBuffer.countBlanks (45 :: (ds.map digitChar ++ rest)) = 0 := by
+        simp [LineBuffer.countBlanks, not_blank_of_range 45 (by omega)]
+      have h45 : ¬ ((45 : Nat) = 36 ∨ (45 : Nat) = 120) := by omega
+      simp only [hk, List.drop_zero, h45, if_false, hneg, numOut, hcn]
+      simp; omega
+    · simp only [hhex', hn, Bool.false_eq_true, if_false, List.nil_append]
+      unfold numSpan
+      rw [heq]
+      have hk : LineBuffer.countBlanks (digitChar d :: tl) = 0 := by
+        simp [LineBuffer.countBlanks, not_blank_of_range (digitChar d) (by omega)]
+      have hnd : ¬ (digitChar d = 36 ∨ digitChar d = 120) := by omega
+      simp only [hk, List.drop_zero, hnd, if_false]
+      rw [← heq, hpos]
+      simp only [numOut, hcp (by omega)]
+      simp; omega
+
+end Ctrmml.Lexer
